@@ -215,6 +215,28 @@ class Lexer:
             self._advance()  # .
             while self._current() and self._current() in "0123456789":
                 self._advance()
+        elif self._current() == "." and self.pos > start:
+            # `5.` and `1.e3`: the fraction digits are optional. A dot followed by
+            # a name is left alone (member access on the number)
+            after = self._peek()
+            exponent_follows = (
+                after != ""
+                and after in "eE"
+                and (
+                    self._peek(2).isdigit()
+                    and self._peek(2).isascii()
+                    or (
+                        self._peek(2) != ""
+                        and self._peek(2) in "+-"
+                        and self._peek(3).isdigit()
+                        and self._peek(3).isascii()
+                    )
+                )
+            )
+            name_follows = after != "" and (after.isalpha() or after in "_$")
+            if exponent_follows or not name_follows:
+                is_float = True
+                self._advance()  # .
 
         # Exponent
         if self._current() and self._current() in "eE":
